@@ -10,7 +10,7 @@
    [run_line lws text] is the reader model: the simple command at the start of
    [text] as assignments and fields, [OField f] = exactly the field [f]
    whatever HOME and the file system contain. *)
-From Yv Require Import Common.Base C07.Model C07.Spec C07.Proofs C07.Run C07.OracleProofs C07.UmaskProofs.
+From Yv Require Import Common.Base C07.Model C07.Spec C07.Proofs C07.Run C07.OracleProofs C07.UmaskProofs C07.GenTie Gen.Gen_C07.
 Local Open Scope N_scope.
 
 (* the model's white-space table is the 25 code points of Unicode White_Space *)
@@ -275,6 +275,22 @@ Theorem alias_listing_refuted : exists n v,
   = COk (mkSimple [] [OField s_alias; OField s_dd; OGlob]) [].
 Proof. exact alias_listing_refuted_lemma. Qed.
 
+(* TIE TO THE SOURCE BY TRANSLATION: the quoter written over the tables that
+   translator/c07_quote.py reads out of yash-quote/src/lib.rs on every run
+   (Gen/Gen_C07.v) is the model's quoter, and the round trip holds of it *)
+Theorem always_quoted_is_source_table : always_quoted = gen_always_quoted.
+Proof. exact always_quoted_is_source_table. Qed.
+Theorem dq_escaped_is_source_table : dq_escaped = gen_dq_escaped.
+Proof. exact dq_escaped_is_source_table. Qed.
+Theorem quote_is_source_quote : forall qws s, quote qws s = quote_src qws s.
+Proof. exact quote_is_source_quote. Qed.
+Theorem source_quote_read_back : forall qws lws, (forall c, lws c = true -> qws c = true) ->
+  ascii_ok lws -> forall cmd ss rest,
+  plain_cmd cmd = true -> rest_ok rest ->
+  run_line lws (cmd ++ spaced (map (quote_src qws) ss) ++ rest)
+  = COk (mkSimple [] (OField cmd :: map OField ss)) rest.
+Proof. exact source_quote_read_back_lemma. Qed.
+
 Print Assumptions rust_whitespace_table.
 Print Assumptions rust_ws_is_ascii_ok.
 Print Assumptions bare_is_inert.
@@ -307,3 +323,7 @@ Print Assumptions umask_symbolic_round_trip.
 Print Assumptions umask_octal_round_trip.
 Print Assumptions umask_fuel_suffices.
 Print Assumptions array_line_reads_back.
+Print Assumptions always_quoted_is_source_table.
+Print Assumptions dq_escaped_is_source_table.
+Print Assumptions quote_is_source_quote.
+Print Assumptions source_quote_read_back.
